@@ -21,8 +21,8 @@ import c05
 LEVEL = "model_checking"
 
 # (NF, NB of function 0, NB of the others, NI) — the shapes the native scenario crate also knows
-SHAPES_QUICK = [(0, 0, 0, 0), (1, 0, 0, 0), (1, 1, 0, 1), (2, 1, 0, 1)]
-SHAPES_THOROUGH = SHAPES_QUICK + [(1, 1, 0, 0), (2, 2, 1, 1)]
+SHAPES_QUICK = [(0, 0, 0, 0), (1, 0, 0, 0), (1, 1, 0, 0), (1, 1, 0, 1), (2, 1, 0, 1)]
+SHAPES_THOROUGH = SHAPES_QUICK + [(2, 2, 1, 1)]
 
 # call ids follow /verif/kani/src/builder.rs
 GROUPS = [[0, 1, 2, 5], [3, 4, 13, 14, 16], [6, 7, 8, 9, 10], [11, 12, 15]]
@@ -78,7 +78,7 @@ def vec(items):
     return sym.Arr(items, "vec")
 
 
-def make_state(shape, sel_f, sel_b, next_id, fields):
+def make_state(shape, sel_f, sel_b, next_id, fields, ended=False):
     nf, nb0, nb1, ni = shape
     funcs = []
     for f in range(nf):
@@ -87,7 +87,8 @@ def make_state(shape, sel_f, sel_b, next_id, fields):
             insts = [sym.Sym("inst_%d_%d_%d" % (f, b, i), "Instruction") for i in range(ni)]
             blk = {"label": some(sym.Sym("label_%d_%d" % (f, b), "Instruction")), "instructions": vec(insts)}
             blocks.append(sym.Adt("Block", None, [blk[n] for n in fields["Block"]]))
-        fn = {"def": some(sym.Sym("def_%d" % f, "Instruction")), "end": none(), "parameters": vec([]), "blocks": vec(blocks)}
+        fn = {"def": some(sym.Sym("def_%d" % f, "Instruction")), "end": some(sym.Sym("end_%d" % f, "Instruction")) if ended else none(),
+              "parameters": vec([]), "blocks": vec(blocks)}
         funcs.append(sym.Adt("Function", None, [fn[n] for n in fields["Function"]]))
     mod = {}
     for n in fields["Module"]:
@@ -219,18 +220,19 @@ def run(ctx):
             sels.append((f, None))
             for b in range(nb0 if f == 0 else nb1):
                 sels.append((f, b))
-        for sel_f, sel_b in sels:
+        # every function still open, or every function finished (OpFunctionEnd present) and selected again for editing
+        for sel_f, sel_b, ended in [(f_, b_, e_) for e_ in ((False, True) if nf else (False,)) for f_, b_ in sels]:
             nstates += 1
             for call, label, method, args, raw_args in calls_for(shape, sel_f, sel_b):
                 eng = sym.Engine([mf, ms], registry, models=MODELS, eager=True, loop_bound=6)
-                b0 = make_state(shape, sel_f, sel_b, nid, fields)
+                b0 = make_state(shape, sel_f, sel_b, nid, fields, ended)
                 c = [x for x in mf.find(method) if "dr/build/" in x[0] and "closure" not in x[0]]
                 if len(c) != 1:
                     raise Inconclusive("Builder::%s: %d MIR candidates" % (method, len(c)))
                 fn = mf.parse_item(c[0][2])
                 res = eng.run(fn, [sym.Ref(("h", "b"), (), True)] + args, mem={("h", "b"): b0}, pc=list(pre))
                 ctx.functions.update(eng.stats.functions)
-                name = "builder/%s/sel=%s,%s/%s" % ("_".join(map(str, shape)), sel_f, sel_b, label)
+                name = "builder/%s%s/sel=%s,%s/%s" % ("_".join(map(str, shape)), "-ended" if ended else "", sel_f, sel_b, label)
                 for r in res:
                     npaths += 1
                     bad = check_path(q, r, b0, bidx, fields, shape, sel_f, sel_b, call, raw_args, nid, args)
@@ -240,7 +242,7 @@ def run(ctx):
                     # native replay through the scenario crate
                     w = bad[2] if len(bad) > 2 else 5
                     grp = [g for g in range(4) if call in GROUPS[g]][0]
-                    raw = bytes([0 if sel_f is None else 1, sel_f or 0, 0 if sel_b is None else 1, sel_b or 0]) + \
+                    raw = bytes([(0 if sel_f is None else 1) | (2 if ended else 0), sel_f or 0, 0 if sel_b is None else 1, sel_b or 0]) + \
                         int(w).to_bytes(4, "little") + bytes([GROUPS[grp].index(call), raw_args[0], raw_args[1], raw_args[2]]) + (0x1234).to_bytes(4, "little")
                     scen = "builder_step_%d_%d_%d_%d_g%d" % (nf, nb0, nb1, ni, grp)
                     real = rp.ask("scenario %s %s" % (scen, raw.hex()))
@@ -250,10 +252,11 @@ def run(ctx):
                         what = "panic: %s (%s)" % (real.get("panic"), real.get("at")) if "panic" in real else kani.code_names().get(code, str(code))
                         ctx.ob(name, False, "%s; native: %s" % (bad[1], what))
                         ctx.violation("builder/%s/%s" % (method, bad[0]),
-                                      "shape %s, selection (%s, %s), next_id=%d: %s -> %s; on the compiled crate: %s" % (shape, sel_f, sel_b, w, label, bad[1], what),
+                                      "shape %s%s, selection (%s, %s), next_id=%d: %s -> %s; on the compiled crate: %s" % (shape, " (functions finished)" if ended else "", sel_f, sel_b, w, label, bad[1], what),
                                       {"cmd": "scenario %s %s" % (scen, raw.hex()), "real": real})
                     else:
                         ctx.ob(name, None, "model reports '%s' but the compiled crate does not (%s)" % (bad[1], real))
+    every_terminator(ctx, q, mf, ms, registry, fields, nid, pre, rp)
     rp.close()
     ctx.validated = rp.count
     ctx.extra["states"] = nstates
@@ -261,6 +264,82 @@ def run(ctx):
     ctx.extra["cvc5"] = q.summary()
     ctx.extra["explanation"] = ("Every (shape, valid selection, call) triple is executed symbolically from the Builder's MIR with the id counter symbolic; "
                                 "post-conditions and invariant checked per path; counter arithmetic by z3.")
+
+
+def every_terminator(ctx, q, mf, ms, registry, fields, nid, pre, rp):
+    """'Appending a terminator fails iff no block is selected; a terminator closes the block' for EVERY generated terminator
+    method (append and insert flavours), not only `ret` / `insert_ret`: each is executed from MIR with symbolic arguments from
+    the three selection states."""
+    import os
+    import sys
+    import bsweep
+    import c06
+    import gtables
+    from common import VERIF
+    sys.path.insert(0, os.path.join(VERIF, "reference"))
+    import spec
+    T = gtables.load_tables()
+    by_snake = {c06.snake(e["opname"]): e["opname"] for e in T["core"]}
+    by_flat = {e["opname"].lower(): e["opname"] for e in T["core"]}
+    terminators = set(spec.BLOCK_TERMINATORS)
+    bidx = {n: i for i, n in enumerate(fields["Builder"])}
+    n = 0
+    for name, file, line in bsweep.builder_methods(mf):
+        opname = c06.opcode_of_method(name, file, by_snake, by_flat)
+        if opname not in terminators or file not in ("autogen_terminator", "mod"):
+            continue
+        fn = mf.parse_item(line)
+        for sel in ((None, None), (0, None), (0, 0)):
+            eng = sym.Engine([mf, ms], registry, models=MODELS + bsweep.EXTRA_MODELS, eager=True, loop_bound=4)
+            for args in bsweep.signature_args(eng, fn, max_combos=2 if ctx.tier == "quick" else 6):
+                b0 = make_state((1, 1, 0, 1), sel[0], sel[1], nid, fields)
+                tag = "terminator/%s/sel=%s,%s" % (name, sel[0], sel[1])
+                try:
+                    res = eng.run(fn, [sym.Ref(("h", "b"), (), True)] + list(args), mem={("h", "b"): b0}, pc=list(pre))
+                except mir.Unsupported as ex:
+                    ctx.ob(tag, None, "not encodable: %s" % str(ex)[:200])
+                    break
+                ctx.functions.add("dr::Builder::" + name)
+                bad = None
+                for r in res:
+                    if r.status != "return":
+                        st, m = q.check(r.pc, "terminator-panic")
+                        if st != "unsat":
+                            bad = ("panics", "%s %s" % (r.status, r.info))
+                        continue
+                    b1 = r.mem[("h", "b")]
+                    ok = not (isinstance(r.value, sym.Adt) and r.value.variant == "Err")
+                    blk_open = sel[1] is not None
+                    bl1 = optval(b1.fields[bidx["selected_block"]])
+                    if ok != blk_open:
+                        bad = ("accepts-what-must-fail" if ok else "rejects-what-must-succeed", "returns %r with%s a selected block" % (r.value, "" if blk_open else "out"))
+                    elif ok and bl1 is not None:
+                        bad = ("terminator-left-block-open", "selected_block=%s after the terminator" % bl1)
+                    elif not ok and not same(b1.fields[bidx["module"]], b0.fields[bidx["module"]]):
+                        bad = ("failed-call-changed-module", "returns Err but the module differs")
+                    if bad:
+                        st, m = q.check(r.pc, "terminator-path-feasible")
+                        if st == "unsat":
+                            bad = None
+                            continue
+                        break
+                n += 1
+                if bad is None:
+                    ctx.ob(tag, True)
+                    continue
+                state = 0 if sel == (None, None) else (1 if sel == (0, None) else 2)
+                real = rp.ask("builder_call %s %d" % (name, state))
+                res_s = str(real.get("result", ""))
+                native_ok = res_s.startswith("Ok")
+                confirmed = "panic" in real or (bad[0].startswith("accepts") and native_ok) or (bad[0].startswith("rejects") and not native_ok) or \
+                    (bad[0] == "terminator-left-block-open" and native_ok and real.get("sel_b") is not None)
+                if confirmed:
+                    ctx.ob(tag, False, "%s; native: %s" % (bad[1], str(real)[:200]))
+                    ctx.violation("builder/%s/%s" % (name, bad[0]), "Builder::%s from selection %s: %s; on the compiled crate: %s" % (name, sel, bad[1], str(real)[:300]),
+                                  {"cmd": "builder_call %s %d" % (name, state), "real": real})
+                    return
+                ctx.ob(tag, None, "model reports '%s' but the compiled crate does not show it: %s" % (bad[1], str(real)[:200]))
+    ctx.extra["terminator_methods_runs"] = n
 
 
 def check_path(q, r, b0, bidx, fields, shape, sel_f, sel_b, call, raw_args, nid, args):
